@@ -1,8 +1,80 @@
-import DendroModel.Basic.Tree
-open DendroModel
+import DendroModel.Model.C02
+open DendroModel DendroModel.C02
+
+def str? (s : String) : Option (Option Str) :=
+  (decodeStr s).map (fun o => o.map String.toList)
+
+def bits (s : String) : List Bool := s.toList.map (· == '1')
+
+def wopts? (s : String) : Option WOpts :=
+  match bits s with
+  | [a, b, c, d, e, f, g, h, i] => some ⟨a, b, c, d, e, f, g, h, i⟩
+  | _ => none
+
+/-- `pu rooting sint sleaf stw`, rooting a digit 0..4 -/
+def ropts? (s : String) : Option ROpts :=
+  match s.toList with
+  | [a, r, c, d, e] =>
+    if '0' ≤ r ∧ r ≤ '4' then some ⟨a == '1', r.toNat - '0'.toNat, c == '1', d == '1', e == '1'⟩ else none
+  | _ => none
+
+/-- pre-order node records `k taxon label len` -/
+def tree? : Nat → List String → Option (NT × List String)
+  | 0, _ => none
+  | f + 1, k :: tx :: lb :: ln :: rest =>
+    match k.toNat?, str? tx, str? lb, str? ln with
+    | some k, some tx, some lb, some ln =>
+      let rec kids : Nat → Nat → List String → Option (List NT × List String)
+        | _, 0, r => some ([], r)
+        | 0, _, _ => none
+        | g + 1, n + 1, r =>
+          match tree? f r with
+          | none => none
+          | some (c, r1) =>
+            match kids g n r1 with
+            | none => none
+            | some (cs, r2) => some (c :: cs, r2)
+      match kids k k rest with
+      | none => none
+      | some (cs, r) => some (.node tx lb ln cs, r)
+    | _, _, _, _ => none
+  | _, _ => none
+
+def strList? (s : String) : Option (List Str) :=
+  if s == "-" then some [] else (s.splitOn ",").mapM (fun x => (str? x).bind id)
+
+def pairs? : List Str → Option (List (Str × Str))
+  | [] => some []
+  | a :: b :: r => (pairs? r).map ((a, b) :: ·)
+  | _ => none
+
+def showTok (t : TokE) : List String :=
+  t.cm.map (fun c => "C:" ++ hexS c) ++ [(if t.quoted then "Q:" else "P:") ++ hexS t.text]
 
 def handle (ws : List String) : String :=
   match ws with
+  | ["escape", ps, qu, which, lab] =>
+    match str? lab, (if which == "d" then some Tables.protectDefault else if which == "n" then some Tables.protectNewick else none) with
+    | some (some l), some prot => hexS (escape (ps == "1") (qu == "1") prot l)
+    | _, _ => "bad-op"
+  | ["tokens", pu, text] =>
+    match str? text with
+    | some (some s) =>
+      let ts := tokenizeAll (pu == "1") s
+      " ".intercalate (ts.toks.flatMap showTok ++ [if ts.ok then (if ts.atEof then "EOF1" else "EOF0") else "ERR"])
+    | _ => "bad-op"
+  | "write" :: wo :: rooting :: weight :: tr =>
+    match wopts? wo, rooting.toNat?, str? weight, tree? (tr.length + 1) tr with
+    | some o, some r, some w, some (t, []) => hexS (writeTree o r w t)
+    | _, _, _, _ => "bad-op"
+  | ["parse", ro, numbers, ns, tokmap, text] =>
+    match ropts? ro, strList? ns, (strList? tokmap).bind pairs?, str? text with
+    | some o, some ns, some tm, some (some s) => renderResult (parseText o ⟨tm, ns, numbers == "1"⟩ s)
+    | _, _, _, _ => "bad-op"
+  | "rt" :: wo :: ro :: rooting :: weight :: tr =>
+    match wopts? wo, ropts? ro, rooting.toNat?, str? weight, tree? (tr.length + 1) tr with
+    | some o, some ro, some r, some w, some (t, []) => renderResult (parseText ro {} (writeTree o r w t ++ ['\n']))
+    | _, _, _, _, _ => "bad-op"
   | _ => "bad-op"
 
 def main : IO Unit := do driverLoop (← IO.getStdin) handle
